@@ -6,7 +6,7 @@ set -e
 export GOFLAGS=-mod=mod GOPROXY=off GOSUMDB=off GOTOOLCHAIN=local
 cd /verif/govc
 for dir in togo fromgo; do
-  if [ $dir = togo ]; then S=gopast; D=ast; FN=go; else S=ast; D=gopast; FN=gop; fi
+  if [ $dir = togo ]; then S=gopast; D=ast; FN=go; TQ=goptoken; else S=ast; D=gopast; FN=gop; TQ=token; fi
   out=/repo/ast/$dir/zz_contracts_verif.go
   {
   cat <<H
@@ -21,7 +21,7 @@ package $dir
 //@ ufunc supportedE(e $S.Expr) bool
 //@ pred relI(a *$S.Ident, b *$D.Ident) := (a == nil <==> b == nil) && (a != nil ==> b.Name == a.Name && b.NamePos == a.NamePos)
 //@ pred relB(a *$S.BasicLit, b *$D.BasicLit) := (a == nil <==> b == nil) && (a != nil ==> b.ValuePos == a.ValuePos && int(b.Kind) == int(a.Kind) && b.Value == a.Value)
-//@ pred relIs(a []*$S.Ident, b []*$D.Ident) := len(a) == len(b) && (forall i in 0..len(a) :: relI(a[i], b[i]))
+//@ pred relIs(a []*$S.Ident, b []*$D.Ident) := (a == nil <==> b == nil) && len(a) == len(b) && (forall i in 0..len(a) :: relI(a[i], b[i]))
 //@ pred relEs(a []$S.Expr, b []$D.Expr) := len(a) == len(b) && (forall i in 0..len(a) :: relE(a[i], b[i]))
 //@ pred relFL(a *$S.FieldList, b *$D.FieldList) := (a == nil <==> b == nil) && (a != nil ==> b.Opening == a.Opening && b.Closing == a.Closing &&
 //@        len(b.List) == len(a.List) && (forall i in 0..len(a.List) :: relField(a.List[i], b.List[i])))
@@ -44,7 +44,7 @@ package $dir
 //@   ensures relB(v, result)
 //@ func ${FN}Idents
 //@   assigns nothing
-//@   ensures relIs(names, result)
+//@   ensures [name-list] relIs(names, result)
 //@ loop ${FN}Idents#1
 //@   invariant len(ret) == len(names) && fresh(ret) && (forall j in 0..rangeindex+1 :: relI(names[j], ret[j]))
 //@ func ${FN}Exprs
@@ -56,13 +56,51 @@ package $dir
 //@ func ${FN}Type
 //@   requires supportedE(v)
 //@   assigns nothing
-//@   ensures relE(v, result) && (v == nil ==> result == nil)
+//@   ensures [call.rel] relE(v, result)
+//@   ensures v == nil ==> result == nil
 //@ func ${FN}FieldList
 //@   requires supportedFL(v)
 //@   assigns nothing
 //@   ensures relFL(v, result)
 //@ loop ${FN}FieldList#1
 //@   invariant v != nil && len(list) == len(v.List) && fresh(list) && (forall j in 0..rangeindex+1 :: relField(v.List[j], list[j]))
+//@
+//@ # declarations
+//@ pred relSpec(a $S.Spec, b $D.Spec) := (istype(a, *$S.ImportSpec) ==> istype(b, *$D.ImportSpec) && relImportSpec(a.(*$S.ImportSpec), b.(*$D.ImportSpec))) &&
+//@        (istype(a, *$S.TypeSpec) ==> istype(b, *$D.TypeSpec) && relTypeSpec(a.(*$S.TypeSpec), b.(*$D.TypeSpec))) &&
+//@        (istype(a, *$S.ValueSpec) ==> istype(b, *$D.ValueSpec) && relValueSpec(a.(*$S.ValueSpec), b.(*$D.ValueSpec)))
+//@ pred wfSpec(t $TQ.Token, a $S.Spec) := (t == $TQ.IMPORT ==> istype(a, *$S.ImportSpec) && wfImportSpec(a.(*$S.ImportSpec))) &&
+//@        (t == $TQ.TYPE ==> istype(a, *$S.TypeSpec) && wfTypeSpec(a.(*$S.TypeSpec))) &&
+//@        (t == $TQ.VAR || t == $TQ.CONST ==> istype(a, *$S.ValueSpec) && wfValueSpec(a.(*$S.ValueSpec)))
+//@ pred wfGenDecl(v *$S.GenDecl) := v != nil && (v.Tok == $TQ.IMPORT || v.Tok == $TQ.TYPE || v.Tok == $TQ.VAR || v.Tok == $TQ.CONST) &&
+//@        (forall i in 0..len(v.Specs) :: wfSpec(v.Tok, v.Specs[i]))
+//@ pred relGenDecl(a *$S.GenDecl, b *$D.GenDecl) := b != nil && b.TokPos == a.TokPos && int(b.Tok) == int(a.Tok) && b.Lparen == a.Lparen && b.Rparen == a.Rparen &&
+//@        len(b.Specs) == len(a.Specs) && (forall i in 0..len(a.Specs) :: relSpec(a.Specs[i], b.Specs[i]))
+//@ func ${FN}GenDecl
+//@   requires wfGenDecl(v)
+//@   assigns nothing
+//@   ensures [GenDecl] relGenDecl(v, result)
+//@ loop ${FN}GenDecl#1
+//@   invariant wfGenDecl(v) && len(specs) == len(v.Specs) && fresh(specs) && (forall j in 0..rangeindex+1 :: relSpec(v.Specs[j], specs[j]))
+//@ pred wfDecl(d $S.Decl) := (istype(d, *$S.GenDecl) || istype(d, *$S.FuncDecl)) &&
+//@        (istype(d, *$S.GenDecl) ==> wfGenDecl(d.(*$S.GenDecl))) && (istype(d, *$S.FuncDecl) ==> wfFuncDecl(d.(*$S.FuncDecl)))
+//@ pred relDecl(a $S.Decl, b $D.Decl) := (istype(a, *$S.GenDecl) ==> istype(b, *$D.GenDecl) && relGenDecl(a.(*$S.GenDecl), b.(*$D.GenDecl))) &&
+//@        (istype(a, *$S.FuncDecl) ==> istype(b, *$D.FuncDecl) && relFuncDecl(a.(*$S.FuncDecl), b.(*$D.FuncDecl)))
+//@ func ${FN}Decl
+//@   requires wfDecl(decl)
+//@   assigns nothing
+//@   ensures [Decl] relDecl(decl, result)
+//@ func ${FN}Decls
+//@   requires forall i in 0..len(decls) :: wfDecl(decls[i])
+//@   assigns nothing
+//@   ensures [Decls] len(result) == len(decls) && (forall i in 0..len(decls) :: relDecl(decls[i], result[i]))
+//@ loop ${FN}Decls#1
+//@   invariant len(ret) == len(decls) && fresh(ret) && (forall j in 0..rangeindex+1 :: relDecl(decls[j], ret[j]))
+//@ func ASTFile
+//@   requires f != nil && mode == 0 && (forall i in 0..len(f.Decls) :: wfDecl(f.Decls[i]))
+//@   assigns nothing
+//@   ensures [File] result != nil && result.Package == f.Package && relI(f.Name, result.Name) &&
+//@            len(result.Decls) == len(f.Decls) && (forall i in 0..len(f.Decls) :: relDecl(f.Decls[i], result.Decls[i]))
 //@
 H
   go run ./cmd/gen37 $dir
